@@ -37,8 +37,24 @@ pub fn keyword_oracle() -> J {
     out
 }
 
+const WORKSPACE: [&str; 5] = [
+    "graphql_client_codegen",
+    "graphql_query_derive",
+    "graphql_introspection_query",
+    "graphql_client",
+    "graphql_client_cli",
+];
+
+/// def path string.  Items of workspace crates are printed by their *definition* path (re-exports such as
+/// `graphql_client_codegen::GraphQLClientCodegenOptions` would otherwise give one item two names, depending on
+/// the crate that mentions it); foreign items by their visible path (what users write).
 pub fn dps(tcx: TyCtxt<'_>, d: DefId) -> String {
-    crate::pr!(tcx.def_path_str(d))
+    let krate = tcx.crate_name(d.krate);
+    if WORKSPACE.contains(&krate.as_str()) {
+        crate::pr!(rustc_middle::ty::print::with_no_visible_paths!(tcx.def_path_str(d)))
+    } else {
+        crate::pr!(tcx.def_path_str(d))
+    }
 }
 
 fn hid(h: hir::HirId) -> String {
